@@ -602,5 +602,6 @@ func c15(args []string) int {
 	sh.Close()
 	c15crit(run)
 	c15upd(run)
+	c15relabel(run)
 	return run.Finish()
 }
